@@ -6,7 +6,7 @@ from . import tracesleg
 INVS = ["C13_MissingExact", "C13_StatesPartition", "C13_Recompose", "C13_MissingValues", "EmitSplit"]
 
 
-def split_corpus(chk, pid, backends, n):
+def split_corpus(chk, pid, backends, n, only=None):
     """Split records (exhaustive 1 intermediate + simulated 3 intermediates) replayed for the given backends."""
     quick = chk.tier == "quick"
     consts = dict(CONSTS, NInter=1, FreeSchedule=False, EmitMod=29 if quick else 7)
@@ -28,6 +28,8 @@ def split_corpus(chk, pid, backends, n):
         chk.replayed += stats["halves"]
         chk.extra.setdefault("split_corpus", []).append({"backend": backend, **stats, "mismatch_records": len(bad)})
         for b in bad:
+            if only is not None and not only(b):
+                continue
             sig = f"{pid}:{backend}:{b['tag']}:{b.get('half', '')}:{b.get('fn', b.get('exception', ''))}:model={model_sig(b.get('text', ''))}"
             chk.violation(sig, b, f"{backend} split ({b.get('half')} of component {b.get('component')}): {b['tag']} "
                           + str({k: v for k, v in b.items() if k not in ('text', 'tag', 'backend', 'half', 'component')})[:220])
